@@ -134,7 +134,9 @@ theorem C12_dumpAll_none (rr : RowReader) (π : MapOrder TableInfo) (e : DetectE
 
 /-! ### SummaryResult.MarshalJSON -/
 
-/-- **What the `databases` object holds for one database.**  For a summary with a single non-template database, the
+/-- **What the `databases` object holds for one database** (a lemma about `summaryDatabasesMap` on a literal SummaryResult with ONE
+database — what a client's Summary holds on the tree of a whole cluster, for any number of databases, is `C12_remote_summary` in
+Props/C12Remote.lean).  For a summary with a single non-template database, the
 object MarshalJSON builds has that database's name as its only key and, under it, the names of the tables of
 `Tables(db)` that are ordinary (`relkind r`) and neither pg_* nor sql_*, in the order of `Tables` (filenode order) —
 or no key at all when there is no such table. -/
